@@ -24,10 +24,13 @@ func NewGovMigrate(govKeeper types.GovKeeper, accountKeeper govtypes.AccountKeep
 }
 
 func (m *GovMigrate) Validate(ctx sdk.Context, _ codec.BinaryCodec, from sdk.AccAddress, to common.Address) error {
-	if err := m.govKeeper.IteratorInactiveProposal(ctx, ctx.BlockTime(), m.DepositPeriodCallback(ctx, from, to)); err != nil {
+	// proposals that are still open are queued under the FUTURE end time of their deposit / voting
+	// period, so the queues are walked up to a time beyond any period, not up to the current block time
+	endTime := ctx.BlockTime().AddDate(100, 0, 0)
+	if err := m.govKeeper.IteratorInactiveProposal(ctx, endTime, m.DepositPeriodCallback(ctx, from, to)); err != nil {
 		return err
 	}
-	return m.govKeeper.IteratorActiveProposal(ctx, ctx.BlockTime(), m.VotePeriodCallback(ctx, from, to))
+	return m.govKeeper.IteratorActiveProposal(ctx, endTime, m.VotePeriodCallback(ctx, from, to))
 }
 
 func (m *GovMigrate) Execute(_ sdk.Context, _ codec.BinaryCodec, _ sdk.AccAddress, _ common.Address) error {
